@@ -9,7 +9,10 @@ def hx(bs):
 
 class C14(Check):
     pid = "C14"
-    rule = ("varint_dec on EVERY byte string of length <= 2 (thorough: also all of length 3 over a 48-value byte alphabet, "
+    rule = ("varint_sweep P: ALL 65536 two-byte suffixes after prefix P compared in aggregate (count, sums, rolling hash of every "
+            "outcome) with the model and an independent python decoder - thorough: every one-byte P, i.e. EVERY string of length 3; "
+            "both tiers: P = 7/8/9 continuation bytes (the 9/10/11-byte boundary, exhaustively in the last two bytes); "
+            "varint_dec on EVERY byte string of length <= 2 (thorough: also all of length 3 over a 48-value byte alphabet, "
             "random length-3..12 strings), all 9/10/11-byte boundary patterns fill^k++[last], a 0x00 at every position, "
             "0..3 trailing bytes; varint_enc / round-trip for 2^(7k)-1, 2^(7k), 2^(7k)+1, 2^64-1 and seeded random u64; "
             "non-trivial = distinct case line; classes counted in input_classes")
@@ -52,6 +55,15 @@ class C14(Check):
             b = [rng.choice([rng.randint(0x80, 0xff), rng.randint(0, 255), 0x80, 0xff]) for _ in range(n - 1)]
             b.append(rng.choice([rng.randint(0, 0x7f), 0, 1, 2, rng.randint(0, 255)]))
             cs.append(Case("varint_dec " + hx(b), "random"))
+        # exhaustive sweep of ALL strings prefix ++ [b1, b2]: every 3-byte string (256 one-byte prefixes) in the thorough tier,
+        # and the 2 suffix bytes after boundary prefixes (8- and 9-byte runs of continuation bytes) in both tiers
+        sweeps = [[0xff] * 8, [0x80] * 8, [0xff] * 9, [0x80] * 9, [0xff] * 7, [0x81] * 8]
+        if tier == "thorough":
+            sweeps += [[a] for a in range(256)]
+        else:
+            sweeps += [[a] for a in (0x00, 0x01, 0x7f, 0x80, 0x81, 0xff)]
+        for pre in sweeps:
+            cs.append(Case("varint_sweep " + hx(pre), "sweep-65536-suffixes"))
         # encoder and round trip
         vals = set([0, 1, 127, 128, 255, 256, 300, 5000000000, 2**64 - 1, 2**63, 2**63 - 1, 2**32, 2**32 - 1])
         for k in range(1, 10):
@@ -71,8 +83,39 @@ class C14(Check):
             return ["leb128 " + case.line.split(" ")[1]]
         return []
 
+    @staticmethod
+    def py_dec(s):
+        """independent minimal-LEB128-on-u64 decoder: (value, consumed) or None"""
+        v, shift = 0, 0
+        for i, b in enumerate(s):
+            if b == 0 and i > 0:
+                return None
+            v |= (b & 0x7f) << shift
+            shift += 7
+            if b < 0x80:
+                return (v, i + 1) if v < 2 ** 64 else None
+        return None
+
+    def sweep_ref(self, pre):
+        nok, sv, sc, hh, m = 0, 0, 0, 7, 2305843009213693951
+        # the decision depends on the suffix only through (b1, b2); the prefix part is decoded once per b1 when possible
+        for b12 in range(65536):
+            r = self.py_dec(pre + bytes([b12 >> 8, b12 & 0xff]))
+            if r is None:
+                hh = (hh * 1000003 + 1) % m
+            else:
+                nok += 1; sv += r[0]; sc += r[1]
+                hh = (hh * 1000003 + (r[0] * 16 + r[1])) % m
+        return "OK %d %d %d %d" % (nok, sv, sc, hh)
+
     def oracle(self, case, impl, ctx):
         op, arg = case.line.split(" ")
+        if op == "varint_sweep":
+            pre = b"" if arg == "-" else bytes.fromhex(arg)
+            want = self.sweep_ref(pre)
+            if impl != want:
+                return "exhaustive sweep after prefix %s: implementation %s, independent minimal-LEB128 decoder %s" % (arg, impl, want)
+            return None
         w = impl.split(" ")
         if w[0] in ("PANIC", "ABORT", "TIMEOUT"):
             return "implementation did not return: " + w[0]
